@@ -12,6 +12,8 @@ CONSTANTS
   PenaltySet = {1}
   KSet = {2}
   PreSet = {0}
+  PostSet = {0}
+  TransOn = FALSE
   MaxH = 4
 INIT Init
 NEXT NextMC
@@ -19,5 +21,5 @@ SYMMETRY Sym
 VIEW View
 CONSTRAINT Bound
 INVARIANTS TypeOK InvC10 OnTime BoundedTermination
-PROPERTIES Status Attempt NoEarlyTimeout ExactTimeout NewAttempt Success Timeout Penalty Signed Callback
+PROPERTIES Status Attempt NoEarlyTimeout ExactTimeout NewAttempt Success Timeout Penalty Signed Callback TransitionStep
 CHECK_DEADLOCK FALSE
